@@ -35,6 +35,8 @@
 #include <sys/time.h>
 #include <sys/resource.h>
 #include <time.h>
+#include <poll.h>
+#include <sys/prctl.h>
 
 namespace pbt {
 
@@ -258,6 +260,38 @@ struct Runner {
     }
     static void disarm_cpu_timer() { struct itimerval it; memset(&it, 0, sizeof it); setitimer(ITIMER_PROF, &it, nullptr); }
 
+    // ---- parent-side watchdog.  The child's own CPU timer is a signal, and a sanitizer runtime that is stuck inside itself (a
+    // race report and a crash report waiting for each other, a spin on its report lock) never delivers it.  The parent therefore
+    // reads the child's CPU time from /proc while it waits for output: more than the limit (+25 % + 5 s) without finishing the
+    // current case = hang; no CPU at all and every poll finding it asleep for 180 s of wall time = stall (deadlock).  Either way
+    // the child is killed and the case is classified from what it left in its error file.
+    enum { WD_NONE = 0, WD_CPU = 1, WD_STALL = 2 }; int wd_killed = WD_NONE;
+    static bool proc_stat(pid_t pid, double &cpu, char &state) {
+        char p[64]; snprintf(p, sizeof p, "/proc/%d/stat", (int)pid); FILE *f = fopen(p, "r"); if (!f) return false;
+        char buf[2048]; size_t n = fread(buf, 1, sizeof buf - 1, f); fclose(f); buf[n] = 0; char *q = strrchr(buf, ')'); if (!q) return false;
+        unsigned long ut = 0, stt = 0; char stc = '?';
+        if (sscanf(q + 2, "%c %*d %*d %*d %*d %*d %*u %*u %*u %*u %*u %lu %lu", &stc, &ut, &stt) != 3) return false;
+        cpu = (double)(ut + stt) / (double)sysconf(_SC_CLK_TCK); state = stc; return true;
+    }
+    // read everything the child writes to fd, calling on_data after each piece; per_case: the limit applies to the CPU used since
+    // shm->case_index last changed (a worker that runs many cases), otherwise to the child's whole life
+    template <class F> void watch_read(pid_t pid, int fd, bool per_case, F on_data) {
+        wd_killed = WD_NONE; char tmp[65536]; double cpu0 = 0, idle_cpu = -1; uint64_t last_case = shm->case_index; time_t idle_since = time(nullptr); bool asleep_all = true;
+        double limit = opt.cpu_limit * 1.25 + 5;
+        for (;;) {
+            struct pollfd pf = {fd, POLLIN, 0}; int pr = poll(&pf, 1, 1000);
+            if (pr > 0) { ssize_t r = read(fd, tmp, sizeof tmp); if (r <= 0) break; on_data(tmp, (size_t)r); idle_since = time(nullptr); idle_cpu = -1; asleep_all = true; continue; }
+            if (pr < 0 && errno != EINTR) break;
+            double cpu; char stc; if (!proc_stat(pid, cpu, stc)) continue;
+            if (per_case && shm->case_index != last_case) { last_case = shm->case_index; cpu0 = cpu; idle_since = time(nullptr); idle_cpu = -1; asleep_all = true; }
+            if (cpu - cpu0 > limit) { wd_killed = WD_CPU; kill(pid, SIGKILL); continue; }
+            if (idle_cpu < 0) idle_cpu = cpu;
+            if (stc != 'S') asleep_all = false;
+            if (cpu - idle_cpu > 0.5) { idle_cpu = cpu; idle_since = time(nullptr); asleep_all = true; }
+            else if (asleep_all && time(nullptr) - idle_since > 180 && shm->phase == 1) { wd_killed = WD_STALL; kill(pid, SIGKILL); }
+        }
+    }
+
     // ---- isolated execution of a sequence in a child: detects crashes and hangs ----
     // result is passed back through a pipe (kind, sig, msg) and the shared rec buffer
     Outcome isolated(const std::vector<uint64_t> &seq, int size) {
@@ -270,7 +304,7 @@ struct Runner {
         fflush(stdout); fflush(stderr);
         pid_t pid = fork();
         if (pid == 0) {
-            close(pfd[0]); redirect_stderr();
+            prctl(PR_SET_PDEATHSIG, SIGKILL); close(pfd[0]); redirect_stderr();
             arm_cpu_timer();
             Outcome o = run();
             disarm_cpu_timer();
@@ -279,8 +313,8 @@ struct Runner {
             _exit(0);
         }
         close(pfd[1]);
-        std::string buf; char tmp[4096]; ssize_t r;
-        while ((r = read(pfd[0], tmp, sizeof tmp)) > 0) buf.append(tmp, r);
+        std::string buf;
+        watch_read(pid, pfd[0], false, [&](const char *d, size_t n) { buf.append(d, n); });
         close(pfd[0]);
         int status = 0; waitpid(pid, &status, 0);
         Outcome o;
@@ -302,6 +336,16 @@ struct Runner {
     }
     void classify_death(int status, Outcome &o) {
         std::string err = read_errfile();
+        if (wd_killed != WD_NONE && err.find("SUMMARY: ") == std::string::npos && err.find("runtime error: ") == std::string::npos) {
+            // killed by the watchdog.  A sanitizer report that had begun (and then blocked inside the runtime) is the finding; otherwise a hang / stall.
+            int w = wd_killed; wd_killed = WD_NONE; size_t q;
+            if ((q = err.find("WARNING: ThreadSanitizer: ")) != std::string::npos || (q = err.find("ERROR: AddressSanitizer: ")) != std::string::npos || (q = err.find("Sanitizer:DEADLYSIGNAL")) != std::string::npos || (q = err.find("ERROR: ThreadSanitizer: ")) != std::string::npos) {
+                std::string line = err.substr(q, err.find('\n', q) - q); o.kind = Outcome::CRASH; std::istringstream is(line); std::string a, b2, c3, d4; is >> a >> b2 >> c3 >> d4;
+                o.sig = "san:" + (c3.empty() ? std::string("report") : c3) + ":runtime-blocked"; o.msg = line + " (the sanitizer runtime then blocked; process killed by the watchdog) | stderr tail: " + err.substr(err.size() > 1500 ? err.size() - 1500 : 0); return; }
+            o.kind = Outcome::HANG; o.sig = w == WD_STALL ? "stall" : "hang";
+            o.msg = w == WD_STALL ? "no progress and no CPU use for 180 s: every thread asleep (deadlock)" : "CPU-time limit of " + std::to_string(opt.cpu_limit) + " s exceeded (signal never delivered; killed by the watchdog)"; return;
+        }
+        wd_killed = WD_NONE;
         if (WIFEXITED(status) && WEXITSTATUS(status) == 99) { o.kind = Outcome::HANG; o.sig = "hang"; o.msg = "CPU-time limit of " + std::to_string(opt.cpu_limit) + " s exceeded"; return; }
         o.kind = Outcome::CRASH;
         // derive a root-cause signature from the sanitizer summary if there is one
@@ -343,7 +387,9 @@ struct Runner {
     Outcome shrink(Outcome cur, int size, bool iso) {
         int budget = opt.shrink_budget;
         if (cur.kind == Outcome::HANG || cur.sig.find("hang") != std::string::npos) budget = std::min(budget, 6);  // each attempt may burn the whole CPU limit
+        time_t t0 = time(nullptr);      // shrinking only decides how small the replay file is, never the verdict: stop after 3 minutes
         auto attempt = [&](const std::vector<uint64_t> &cand) -> bool {
+            if (budget > 0 && time(nullptr) - t0 > 180) budget = 0;
             if (budget <= 0) return false;
             budget--;
             Outcome o = iso ? isolated(cand, size) : exec_seq(cand, size);
@@ -484,7 +530,7 @@ struct Runner {
             fflush(stdout); fflush(stderr);
             pid_t pid = fork();
             if (pid == 0) {
-                close(pfd[0]); redirect_stderr();
+                prctl(PR_SET_PDEATHSIG, SIGKILL); close(pfd[0]); redirect_stderr();
                 FILE *out = fdopen(pfd[1], "w");
                 for (uint64_t j = i; j < opt.cases; j++) {
                     shm->case_index = j; shm->nrec = 0; shm->phase = 1; shm->desc[0] = 0;
@@ -499,7 +545,7 @@ struct Runner {
                 fflush(out); _exit(0);
             }
             close(pfd[1]);
-            std::string buf; char tmp[65536]; ssize_t r; bool stop = false;
+            std::string buf; bool stop = false;
             uint64_t done = 0; Outcome pending; bool have_pending = false;
             auto parse = [&](bool final) {
                 size_t p;
@@ -511,7 +557,7 @@ struct Runner {
                 }
                 (void)final;
             };
-            while ((r = read(pfd[0], tmp, sizeof tmp)) > 0) { buf.append(tmp, r); parse(false); }
+            watch_read(pid, pfd[0], true, [&](const char *d, size_t n) { buf.append(d, n); parse(false); });
             close(pfd[0]); parse(true);
             int status = 0; waitpid(pid, &status, 0);
             uint64_t at = i + done;   // index of the case after the last reported one
